@@ -81,9 +81,9 @@ CHECKS = {
                      "values, order and use of the result) and the rule ExtCountRule (InkHostRules): cumulative host calls of "
                      "an unsafe function equal the executed calls counted by the Ink fallback, never before the marker line "
                      "preceding the call site was delivered; a safe function at least as often; no host call of an unsafe "
-                     "function from inside strings; late binding after a failed first continue.",
+                     "function from inside strings; late binding after a failed first continue. Additionally spec/InkLook.tla models the rule for functions that are not look-ahead safe (a pending snapshot makes the engine end the line before the call; the call is made by the next continue) and spec/InkHostOps.tla compares, for every continue of random histories, the calls the host received - function, argument values, order - with the model's.",
                 note="host functions and fallbacks compute the same pure function; unsafe runs are compared turn by turn",
-                technique="TLA+ trace validation (InkHostTrace + InkHostRules) of bound vs fallback runs"),
+                technique="TLA+ trace validation (InkHostTrace + InkHostRules) of bound vs fallback runs + TLA+ executable host model (InkHost/InkLook) as absolute oracle"),
     "C13": dict(level=MC, ref="5/C13",
                 text="TLC evaluates MsgRule and NoHandlerRule (InkHostRules) on every recorded call: with a handler, what it "
                      "receives in a continue equals, as a bag, the messages the no-handler base run raised in that continue "
